@@ -295,7 +295,7 @@ def _create_table(c: _Cur, src, comments):
         raise DDLError('CREATE TABLE must end with );')
     body = body[:-2]
     st = {'kind': 'table', 'name': name, 'columns': [], 'pks': [], 'fks': [], 'comments': comments}
-    for entry in _split_entries(body):
+    for entry in (_split_entries(body) if any(t.kind != 'comment' for t in body) else []):
         ec = [t.text for t in entry if t.kind == 'comment']
         e = [t for t in entry if t.kind != 'comment']
         if not e:
